@@ -101,8 +101,9 @@ def _exception_classes():
 EXC = _exception_classes()
 
 
-def to_callable(p, exc=None):
-    """exc: name of the built-in exception a scripted raise throws (None: PredRaise)"""
+def to_callable(p, exc=None, noargs=False):
+    """exc: name of the built-in exception a scripted raise throws (None: PredRaise); noargs: raised without
+    arguments, as `raise KeyError` or a bare `assert` do"""
     if exc is None:
         return lambda e, h: ev_eval(p, e, h)
 
@@ -110,7 +111,7 @@ def to_callable(p, exc=None):
         try:
             return ev_eval(p, e, h)
         except PredRaise:
-            raise EXC[exc]("scripted")
+            raise (EXC[exc]() if noargs else EXC[exc]("scripted"))
     return f
 
 
@@ -214,10 +215,10 @@ def make_pattern(p, mode=None):
     exc = mode.get("exc")
     if mode.get("typed"):
         def mk(x):
-            return BoboPredicateCallType(to_callable(x, exc), dtype=int, subtype=bool(mode.get("subtype", True)), cast=True)
+            return BoboPredicateCallType(to_callable(x, exc, bool(mode.get("noargs"))), dtype=int, subtype=bool(mode.get("subtype", True)), cast=True)
     else:
         def mk(x):
-            return BoboPredicateCall(to_callable(x, exc))
+            return BoboPredicateCall(to_callable(x, exc, bool(mode.get("noargs"))))
     blocks = [BoboPatternBlock(predicates=[mk(x) for x in b["preds"]],
                                group=gname(b["group"]), strict=b["strict"], loop=b["loop"],
                                negated=b["neg"], optional=b["opt"]) for b in p["blocks"]]
